@@ -14,7 +14,7 @@
     prog        `genProgram` programs without doc comments × every split × 1 argument list (rotating)
     docs        `genProgram` programs + generated doc comments (overview lines, links, `@see`, `@param`) × splits
     args        one program × the whole argument catalogue
-    known-d08a  operations with `@returns` documentation: expected = what the PROPERTY demands (`DocMode.asDemanded`)
+    regress-d08a  operations with `@returns` documentation (the witnesses of the repaired D-08a)
   `genC08p` (used by procrun/c08.py through `drv gen C08p`): <family> <refs> <args> <files hex> <expected hex> for the
   real binary; paths are `f<i>.slice`.
 -/
@@ -198,7 +198,15 @@ def genDocLines (targets : List String) (params rets : List String) : G (List St
       else ls := ls ++ [" @param " ++ pn ++ ":" ++ (← pickG [" ", "", "   "]) ++ (← msg)]
       if ← coin 1 4 then ls := ls ++ ["   " ++ (← msg)]
   if !params.isEmpty && (← coin 1 8) then ls := ls ++ [" @param nosuch: " ++ (← msg)]
-  let _ := rets
+  -- `@returns` tags: by identifier, unnamed, now and then for a name that is no return member
+  for rn in rets do
+    if ← coin 2 3 then
+      let c ← below 4
+      if c == 0 then ls := ls ++ [" @returns " ++ rn]
+      else if c == 1 && rets.length == 1 then ls := ls ++ [" @returns:" ++ (← pickG [" ", "", "  "]) ++ (← msg)]
+      else ls := ls ++ [" @returns " ++ rn ++ ":" ++ (← pickG [" ", "", "   "]) ++ (← msg)]
+      if ← coin 1 4 then ls := ls ++ ["   " ++ (← msg)]
+  if !params.isEmpty && !rets.isEmpty && (← coin 1 6) then ls := ls ++ [" @returns " ++ (← pickG params) ++ ": " ++ (← msg)]
   let nSee ← pickG [0, 0, 1, 2]
   for _ in [0:nSee] do
     if targets.isEmpty || (← coin 1 6) then ls := ls ++ [" @see Missing"]
@@ -216,7 +224,12 @@ def addDocs (p : Program) : G Program := do
       | .iface _ a n b ops =>
         let ops ← ops.mapM fun o => do
           let ps := (o.params.map (·.name)).filter fun s => !(keywords.contains s)
-          return { o with doc := ← genDocLines targets ps [] }
+          let rnames : List String := match o.ret with
+            | .none => []
+            | .single .. => ["returnValue"]
+            | .tuple ms => ms.map fun (m : Param) => m.name
+          let rs := rnames.filter fun s => !(keywords.contains s)
+          return { o with doc := ← genDocLines targets ps rs }
         return Def.iface (← genDocLines targets [] []) a n b ops
       | .enum _ a c u n ul es =>
         let es ← es.mapM fun e => do
@@ -279,15 +292,15 @@ def c08Cases (tier : Tier) (seed : Nat) : List C08Case := Id.run do
   for (_, p) in handPrograms do
     for refs in splitsOf p.length do
       for a in [0, 1, 2] do
-        out := ⟨"hand", .asImplemented, p, refs, genArgLists.getD ((k + a) % argN) [], (k + a) % 3, seed * 100 + k⟩ :: out
+        out := ⟨"hand", DocMode.current, p, refs, genArgLists.getD ((k + a) % argN) [], (k + a) % 3, seed * 100 + k⟩ :: out
       k := k + 1
   for (_, p) in nomodulePrograms do
     for refs in splitsOf p.length do
-      out := ⟨"nomodule", .asImplemented, p, refs, genArgLists.getD (k % argN) [], 0, seed⟩ :: out
+      out := ⟨"nomodule", DocMode.current, p, refs, genArgLists.getD (k % argN) [], 0, seed⟩ :: out
       k := k + 1
   -- the whole argument catalogue on one program
   for a in genArgLists do
-    out := ⟨"args", .asImplemented, (handPrograms.getD 1 default).2, [], a, 0, seed⟩ :: out
+    out := ⟨"args", DocMode.current, (handPrograms.getD 1 default).2, [], a, 0, seed⟩ :: out
   -- generated programs
   let nProg := if tier == .thorough then 8000 else 600
   let mut r := Rng.mk' (seed + 8)
@@ -303,10 +316,10 @@ def c08Cases (tier : Tier) (seed : Nat) : List C08Case := Id.run do
     let splits := splitsOf p.length
     let mut j := 0
     for refs in splits do
-      out := ⟨if withDocs then "docs" else "prog", .asImplemented, p, refs, genArgLists.getD ((i + j) % 6) [], (i + j) % 3, seed * 1000 + i⟩ :: out
+      out := ⟨if withDocs then "docs" else "prog", DocMode.current, p, refs, genArgLists.getD ((i + j) % 6) [], (i + j) % 3, seed * 1000 + i⟩ :: out
       j := j + 1
   for (_, p) in d08aPrograms do
-    out := ⟨"known-d08a", .asDemanded, p, [], [], 0, seed⟩ :: out
+    out := ⟨"regress-d08a", DocMode.current, p, [], [], 0, seed⟩ :: out
   return out.reverse
 
 def genC08 (tier : Tier) (seed : Nat) (o : Out) : IO Unit := do
